@@ -281,7 +281,7 @@ func refusedBody(viaSession bool) func(s *vsched.Sched) {
 // applyRefusalBody: the prefix holds a key with two suffixes; a subscriber is attached; a sequential put with one
 // delta is accepted into the log and refused when it is applied (too few deltas for the keys of the prefix). No key
 // was generated: the subscriber must still hold the latest generated key afterwards.
-func applyRefusalBody() func(s *vsched.Sched) {
+func applyRefusalBody(okFirst bool) func(s *vsched.Sched) {
 	return func(s *vsched.Sched) {
 		s.Explore(false)
 		env := oxc.NewEnv(s)
@@ -313,13 +313,21 @@ func applyRefusalBody() func(s *vsched.Sched) {
 		s.Explore(true)
 		outcome := ""
 		vsched.Go(func() {
-			r, err := lc.WriteBlock(context.Background(), seqPut())
+			req := seqPut()
+			if okFirst {
+				// a sequential put that generates a key, in front of the one that is refused: the request as a
+				// whole is refused, the generated key never exists
+				first := seqPut().Puts[0]
+				first.SequenceKeyDelta = []uint64{1, 1}
+				req.Puts = append([]*proto.PutRequest{first}, req.Puts...)
+			}
+			r, err := lc.WriteBlock(context.Background(), req)
 			switch {
 			case err != nil:
 				outcome = "refused: " + err.Error()
-			case len(r.Puts) == 1 && r.Puts[0].Status == proto.Status_OK:
-				outcome = "created " + r.Puts[0].GetKey()
-				highest = r.Puts[0].GetKey()
+			case len(r.Puts) >= 1 && r.Puts[len(r.Puts)-1].Status == proto.Status_OK:
+				outcome = "created " + r.Puts[len(r.Puts)-1].GetKey()
+				highest = r.Puts[len(r.Puts)-1].GetKey()
 			default:
 				outcome = fmt.Sprint(r)
 			}
@@ -327,7 +335,7 @@ func applyRefusalBody() func(s *vsched.Sched) {
 		s.Settle()
 		s.Explore(false)
 		if last != highest {
-			s.Fail("subscriber-missed-latest-key", fmt.Sprintf("prefix with the key %q, then a sequential put with one delta (%s): the latest generated key is %q, the subscriber was sent %q and holds %q at quiescence", highest, outcome, highest, seen, last))
+			s.Fail("subscriber-missed-latest-key", fmt.Sprintf("prefix with the key %q, then a request (a generated key in front: %v) whose sequential put with one delta is refused when applied (%s): the latest generated key is %q, the subscriber was sent %q and holds %q at quiescence", highest, okFirst, outcome, highest, seen, last))
 		}
 		s.Data = fmt.Sprintf("last=%s highest=%s outcome=%s", last, highest, outcome)
 		cancel()
@@ -345,7 +353,8 @@ func scenarios(tier string) []sched.Scenario {
 		{Name: "subscription-across-deletes", Cfg: cfg, MaxDev: 2, Body: deletesBody()},
 		{Name: "batch-last-seqput-refused-version", Cfg: cfg, MaxDev: 2, Body: refusedBody(false)},
 		{Name: "batch-last-seqput-refused-session", Cfg: cfg, MaxDev: 2, Body: refusedBody(true)},
-		{Name: "seqput-refused-when-applied", Cfg: cfg, MaxDev: 2, Body: applyRefusalBody()},
+		{Name: "seqput-refused-when-applied", Cfg: cfg, MaxDev: 2, Body: applyRefusalBody(false)},
+		{Name: "request-refused-after-a-key-was-generated", Cfg: cfg, MaxDev: 2, Body: applyRefusalBody(true)},
 	}
 	if tier == "thorough" {
 		out[0].MaxDev = 3
